@@ -48,8 +48,20 @@ def _zero_block_cases(rng, tier):
             yield "h_addr %s %s %s 0" % (kind, hx(h), "1" if ver in (0x6f, 0xc4) else "0"), "zero-digit-block-address"
 
 
+def _mismatched_flag_wallets(rng, tier):
+    """wallets built with the class constructor whose root NODE carries the other network flag than the WALLET (no
+    classmethod constructor produces one, the constructor accepts it): every address kind follows the wallet"""
+    for _ in range(2 if tier == "quick" else 30):
+        sd = bytes(rng.getrandbits(8) for _ in range(32))
+        for nt, wt in (("0", "1"), ("1", "0"), ("1", "1")):
+            pth = rng.choice(["m", "m/0", "m/84'/0'/0'/0/3", "m/1/2"])
+            for kind in KINDS:
+                yield "w_addr raw:%s:%s:%s %s %s" % (hx(sd), nt, wt, sx(pth), kind), "node-flag-vs-wallet-flag"
+
+
 def cases(rng, tier):
     yield from _zero_block_cases(rng, tier)
+    yield from _mismatched_flag_wallets(rng, tier)
     ks = [1, 2, 3, N - 1, N - 2, 2 ** 255, 2 ** 64]
     for _ in range(25 if tier == "quick" else 2500):
         ks.append(rng.randrange(1, N))
@@ -167,6 +179,19 @@ def oracle(line, out):
             if d[0] != 0 or bytes(d[1]) != h:
                 return "%s address has wrong witness version/program" % kind
         return None
+    if op == "w_addr":
+        wspec, pth, kind = tok[1], tok[2], tok[3]
+        nd = impl.run("w_bypath %s %s" % (wspec, pth))
+        if not nd.startswith("ok N"):
+            return None
+        f = nd.split(" ")
+        kb = unhex(f[3])
+        if f[2] == "P":
+            x, y = point(int.from_bytes(kb, "big"))
+            sec = sec_c(x, y)
+        else:
+            sec = kb
+        return oracle("addr %s %s %s" % (kind, hx(sec), wspec.split(":")[-1]), out)
     if op == "pk_addr":
         key, c, t, kind = unhex(tok[1]), tok[2] == "1", tok[3] == "1", tok[4]
         if kind not in ("p2pkh", "p2wpkh"):
